@@ -139,7 +139,7 @@ Proof. exact c03_commit_accepted_l. Qed.
 Print Assumptions c03_commit_accepted.
 
 Theorem c03_v2_revision_accepted : forall meta s id e c newroots, reach meta s ->
-  alookup id (t2 (dbs s)) = Some e -> rto e = None ->
+  alookup id (t2 (dbs s)) = Some e -> rto e = None -> mem id (rejd (dbs s)) = false ->
   rk e = r2_rk c -> hk e = r2_hk c -> wstart e = r2_ph c -> expi e = r2_exp c ->
   r2_fsize c = sector_size * nlen newroots -> r2_fsize c <= r2_cap c ->
   r2_mroot c = meta newroots -> all_stored (stored (dbs s)) newroots = true ->
@@ -147,6 +147,27 @@ Theorem c03_v2_revision_accepted : forall meta s id e c newroots, reach meta s -
   cache_get (fst (step s (Revise2 id c newroots (meta newroots) true true None))) id = newroots.
 Proof. exact c03_revise2_accepted_l. Qed.
 Print Assumptions c03_v2_revision_accepted.
+
+(* What a rejected v2 contract refuses (/repo 7f58b1d): in ANY state in which RejectContracts has marked the
+   contract, ReviseV2Contract and RenewV2Contract answer an error and change nothing — whatever the revision,
+   roots, signatures, transaction set, and with a store failure at any statement — and LockV2Contract reports
+   it not revisable.  (Its root rows are deleted by the next expiry: Props_C03_Hand.v.)  The v1 guard of this
+   layer has the height and revision-number clauses; its status clause is in Hand.v. *)
+Theorem c03_rejected_v2_contract_refuses : forall s id, mem id (rejd (dbs s)) = true ->
+  (forall c l m a b f, exists r, step s (Revise2 id c l m a b f) = (s, ORes r) /\ r <> Ok tt) /\
+  (forall new c m wf f, exists r, step s (Renew2 id new c m wf f) = (s, ORes r) /\ r <> Ok tt) /\
+  (forall r rn rv l, snd (step s (Lock2 id)) = OLock2 (Ok (r, rn, rv, l)) -> rv = false).
+Proof. exact rejected2_refuses_l. Qed.
+Print Assumptions c03_rejected_v2_contract_refuses.
+
+(* RejectContracts writes the status of the contracts it reports and nothing else *)
+Theorem c03_reject_keeps_lists : forall s ids,
+  let s' := fst (step s (Reject ids)) in
+  t1 (dbs s') = t1 (dbs s) /\ t2 (dbs s') = t2 (dbs s) /\ cache s' = cache s /\ nsec (dbs s') = nsec (dbs s) /\
+  stored (dbs s') = stored (dbs s) /\ located (dbs s') = located (dbs s) /\
+  forall id, mem id ids = true -> mem id (rejd (dbs s')) = true.
+Proof. exact reject_keeps_lists_l. Qed.
+Print Assumptions c03_reject_keeps_lists.
 
 (* no disciplined operation panics in a reachable state (no counter underflow, no index out
    of range in the replay), so "rejected or failed" really is an error return *)
